@@ -3,7 +3,6 @@ C13 — structural tie of `encodeXterm`, `handleMouse` and the forwarding arms o
 (widgets/term) to the model.  See `Props/C09Body.lean` for the scheme.
 -/
 import VaxisModel.Model.TermBody
-import VaxisModel.Lemmas.TermBodyPin
 import VaxisModel.Lemmas.TermBodyEval
 
 namespace VaxisModel.Props.C13Body
@@ -17,9 +16,6 @@ theorem term_bodies_fully_recognised :
     (VaxisModel.Gen.TermBody.encodeXtermBody.clean && VaxisModel.Gen.TermBody.handleMouseBody.clean &&
      VaxisModel.Gen.TermBody.updateBody.clean) = true ∧ VaxisModel.Gen.TermBody.unknownCount = 0 := by decide
 
-theorem facts_encodeXterm_body : VaxisModel.Gen.TermBody.encodeXtermBody = VaxisModel.Lemmas.TermBodyPin.encodeXtermBody := rfl
-theorem facts_handleMouse_body : VaxisModel.Gen.TermBody.handleMouseBody = VaxisModel.Lemmas.TermBodyPin.handleMouseBody := rfl
-theorem facts_update_body : VaxisModel.Gen.TermBody.updateBody = VaxisModel.Lemmas.TermBodyPin.updateBody := rfl
 
 /-! ## The interpreted extracted bodies are the hand-written model
 
